@@ -290,38 +290,44 @@ CLAIMED = {
 
 # coverage added after the first complete version (mostly in response to independently seeded changes, DESIGN.md 0b.7)
 ADDENDA = {
-    'C01': 'Derived regions (masked_region, refined grids), list inputs and float32 points on long axes are included.',
+    'C01': 'Derived regions (masked_region, refined grids), list inputs, byte-swapped coordinate arrays and float32 points on long axes are included.',
     'C02': 'Also: edge generators on whole-number starts with awkward steps, the far ends of the float64 range (+-inf, 1.8e308, '
            '2^63 bins away), and the forecast / catalog entry points (get_magnitude_index, get_mag_idx) for every abstract case.',
     'C03': 'Also: catalogs re-bound to a second region over the same cells and gridded again, single-precision catalog '
-           'subclasses with events exactly on edges, retbins=True.',
+           'subclasses with events exactly on edges, retbins=True, a magnitude grid of step 1/8 bound after construction.',
     'C04': 'Also: every call may act on any existing object (per-object ghost state), fractional thresholds, thresholds in '
            'several spellings of the same number (exponent notation), four kinds of region for the spatial filter (two cells, '
            'edge-inclusive cell, flagged lattice, quadtree), update_stats.',
     'C05': 'Also: C / Fortran / transposed rate arrays, float32 / integer rate arrays (dtype-aware tolerance), forecasts '
-           'expecting about one event (empty simulated catalogs; drawn count must be held), re-evaluation on the same objects.',
+           'expecting about one event (empty simulated catalogs; drawn count must be held), re-evaluation on the same objects, '
+           'rates held as stored rates x an array scale factor.',
     'C06': 'Also: memory layouts, float32 / integer rate arrays, totals that are not powers of two yet give exact quotients '
-           '(49/256, 3), admissible set generalised to runs of very narrow bins.',
+           '(49/256, 3), admissible set generalised to runs of very narrow bins, comparative tests (scale=True) between the '
+           'two seeded runs of every determinism record.',
     'C07': 'Also: evaluate / rescale / evaluate on one forecast object; catalog N-test after a complete pass that shortens the '
-           'catalogs in place; n_obs = 0 and variance within 1e-6 of the mean.',
+           'catalogs in place; n_obs = 0 and variance within 1e-6 of the mean; integer-typed rates scaled by fractions.',
     'C08': 'Also: mirrored bin pairs (ties across signs), bin pairs left identical (differences equal to the null median), '
            'zero-variance samples compared on gain and critical value only.',
-    'C09': 'Also: uint8/16/64, int8/32, float32 samples, the cdf= argument, queries at +-inf and +-1.8e308.',
+    'C09': 'Also: uint8/16/64, int8/32, float32 samples, samples containing +-inf, the cdf= argument, queries at +-inf and +-1.8e308.',
     'C10': 'Also: three-cell worlds, re-evaluation after in-place filtering, all six tests in rotating order on ONE forecast '
-           'object compared with the fresh results.',
+           'object compared with the fresh results, sources holding extra events that the configured filters remove.',
     'C11': 'Also: array-valued scale factors, a second file on the same cells loaded before the first forecast is examined, '
            'magnitudes just below the next edge, three dialects of the whitespace-separated file format.',
     'C12': 'Also: 1- and 2-digit second fractions, files whose last row has no line break.',
-    'C13': 'Also: the time-dependent completeness filter (apply_mct) as a second realisation of the configured filters.',
+    'C13': 'Also: the time-dependent completeness filter (apply_mct) as a second realisation of the configured filters; '
+           'in-memory catalogs that already name the statements in their filters attribute.',
     'C14': 'Also: DataFrames with and without the datetime index, chains of two round trips, negative catalog ids, the '
-           'magnitude bins of the region.',
-    'C16': 'Also: memory layouts of rate and count arrays, re-evaluation on the same objects.',
+           'magnitude bins of the region, histories run under non-UTC local time zones.',
+    'C15': 'Also: process time zones with clock changes, short fractions in front of an explicit +00:00 offset.',
+    'C16': 'Also: memory layouts of rate and count arrays, re-evaluation on the same objects, also after re-scaling them.',
     'C17': 'Also: per-cell areas of every mixed-zoom grid against the closed formula, batches of points (list / array) over '
            'the whole square including holes of partial grids.',
-    'C18': 'Also: 0 / 0.0 in every numeric field class.',
+    'C18': 'Also: 0 / 0.0 in every numeric field class, number-like names and names with surrounding white space on '
+           'constructed and on produced results.',
     'C19': 'Also: files whose last record has no line break.',
     'C20': 'Also: quadtree cell permutations with events on tile edges, cell re-ordering expressed as a forecast file, '
-           'mirrored-rate forecast pairs (ties across signs) under event re-ordering.',
+           'mirrored-rate forecast pairs (ties across signs) under event re-ordering, re-ordering in place on a catalog '
+           'object that was evaluated before.',
 }
 
 NOT_YET = 'check not built yet in this round (specification planned in DESIGN.md section 5); not claimed until it exists'
